@@ -68,6 +68,7 @@ def scenarios(ctx):
         caches = rng.randrange(0, 17)
         uci = rng.randrange(0, (1 << 32) - 16 - 8 * caches)
         scn.append({"size": size, "part": part, "uci": uci, "caches": caches})
+    rng.shuffle(scn)   # the loops above are periodic: the modulo selectors below must not alias with them
     for k, s in enumerate(scn):
         s["via"] = "cli" if k % (9 if quick else 15) == 0 else "lib"
         s["seed"] = k
